@@ -56,6 +56,8 @@ so that the renderings of the earlier modules stay byte-identical):
     renaming it changes nothing); the theorem states what it assumes about it;
   * `any(v == y for v in xs)` is `y in xs`; a call `C(x, k=y)` of a class / function defined at module level of the same
     file is written with every argument as a keyword (`C(a=,k=)`), whichever way the source passes them;
+  * a constructor `C.__init__` made of `self.<attr> = <expr>` statements is translated as the function returning the dict
+    `{"<attr>": value, …}` (attributes in alphabetical order) of what it stores;
   * `if c: return a` directly followed by `return b` (and `if c: return a else: return b`) is `return a if c else b`;
   * `for x in it: if c: return True` directly followed by `return False` is `return any(c for x in it)`;
   * the empty dict literal `{}`; `xs.index(v)`, `zip(xs, ys)`, `d.items()` (builtins of the interpreter);
@@ -936,8 +938,62 @@ def canonical_init_prefix(body: list) -> list:
     return [("assign", n, v) for n, v in run] + rest
 
 
+def constructor_as_function(fn: ast.FunctionDef) -> ast.FunctionDef:
+    """`__init__(self, …)` whose statements at top level are `self.<attr> = <expr>` (reads of `self.<attr>` after the
+    assignment allowed) as the function `(…) -> {"<attr>": value, …}` (attributes in alphabetical order): what the
+    constructor stores.  Anything else that mentions `self` is outside the subset."""
+    import copy
+    fn = copy.deepcopy(fn)
+    if not fn.args.args:
+        raise TranslationError("__init__ without self")
+    self_name = fn.args.args[0].arg
+    fn.args.args = fn.args.args[1:]
+    attrs, body = [], []
+    var = lambda a: f"{self_name}.{a}"      # noqa: E731  (not a Python identifier: cannot clash with a local)
+
+    class R(ast.NodeTransformer):
+        def visit_Attribute(self, n):       # noqa: N802
+            if isinstance(n.value, ast.Name) and n.value.id == self_name:
+                if n.attr not in attrs or not isinstance(n.ctx, ast.Load):
+                    raise TranslationError(f"__init__: `{self_name}.{n.attr}` used before it is assigned / not as a value")
+                return ast.copy_location(ast.Name(id=var(n.attr), ctx=ast.Load()), n)
+            return self.generic_visit(n)
+
+        def visit_Name(self, n):            # noqa: N802
+            if n.id == self_name:
+                raise TranslationError("__init__: `self` used other than as `self.<attr>`")
+            return n
+
+    for st in fn.body:
+        if _is_docstring(st) or isinstance(st, ast.Pass):
+            continue
+        tg = None
+        if isinstance(st, ast.Assign) and len(st.targets) == 1:
+            tg, val = st.targets[0], st.value
+        elif isinstance(st, ast.AnnAssign) and st.value is not None:
+            tg, val = st.target, st.value
+        if tg is not None and isinstance(tg, ast.Attribute) and isinstance(tg.value, ast.Name) and tg.value.id == self_name:
+            val = R().visit(val)
+            if tg.attr not in attrs:
+                attrs.append(tg.attr)
+            body.append(ast.Assign(targets=[ast.Name(id=var(tg.attr), ctx=ast.Store())], value=val))
+        else:
+            body.append(R().visit(st))
+    res = "<stored>"
+    body.append(ast.Assign(targets=[ast.Name(id=res, ctx=ast.Store())], value=ast.Dict(keys=[], values=[])))
+    for a in sorted(attrs):
+        body.append(ast.Assign(targets=[ast.Subscript(value=ast.Name(id=res, ctx=ast.Load()), slice=ast.Constant(value=a),
+                                                      ctx=ast.Store())], value=ast.Name(id=var(a), ctx=ast.Load())))
+    body.append(ast.Return(value=ast.Name(id=res, ctx=ast.Load())))
+    fn.body = body
+    ast.fix_missing_locations(fn)
+    return fn
+
+
 def translate_function(fn: ast.FunctionDef, enums, loggers=frozenset(), scoped=False, plumbing=False,
                        opaque=(), module=None) -> dict:
+    if plumbing and fn.name == "__init__":
+        fn = constructor_as_function(fn)
     a = fn.args
     if a.vararg or a.kwarg or a.kwonlyargs or a.posonlyargs:
         raise TranslationError(f"{fn.name}: only plain positional parameters are supported")
